@@ -35,7 +35,8 @@ FLOORS = {'files_loaded': 60, 'cells_compared': 2000,
           'names_compared': 30, 'ignore_sets': 20, 'storage_forms_seen': 9,
           'evaluations_compared': 1000, 'date1904_workbooks': 4,
           'sheet_scoped_twin_names': 5, 'archives_parsed_again': 20,
-          'names_on_uncached_formula_cells': 10}
+          'names_on_uncached_formula_cells': 10, 'single_cell_sheets': 10,
+          'time_formatted_formula_cells': 5}
 ANCHOR_FUNCS = {
     'xlcalculator/reader.py': ['Reader.read', 'Reader.read_cells',
                                'Reader.read_defined_names'],
@@ -189,6 +190,16 @@ def gen_file(rng, sheets, date1904=False):
                                         'formula': ref.render(ast),
                                         'cached': None}
                 sp.wbcells[(s, 5, r)] = ('f', ast)
+                # a FORMULA cell in the same format that carries its cached
+                # result (a number, shown as a time / duration)
+                ast2 = ('bin', '+', ('ref', None, 4, r, False, False),
+                        ('lit', 0, '0'))
+                sp.sb.put(s, 6, r, f=ref.render(ast2), v=repr(v), s=style)
+                sp.expect[(s, 6, r)] = {'kind': 'formula',
+                                        'formula': ref.render(ast2),
+                                        'cached': ('num', float(v))}
+                sp.wbcells[(s, 6, r)] = ('f', ast2)
+                sp.forms.add('time-formula-cached')
             sp.forms.add('time')
         for r, form in ((5, 's'), (6, 'inlineStr'), (7, 'str')):
             if rng.random() < 0.5:
@@ -296,6 +307,26 @@ def run(ctx):
         if date1904:
             ctx.event('date1904_workbooks')
         sp = gen_file(rng, sheets, date1904)
+        if 'time-formula-cached' in sp.forms:
+            ctx.event('time_formatted_formula_cells')
+        if fi % 2 == 0:
+            # a sheet whose only stored cell is A1 (a single parameter), used
+            # by a formula on the first sheet
+            single = 'Rate'
+            sheets = sheets + [single]
+            sp.sb.put_value(single, 1, 1, 0.19)
+            sp.expect[(single, 1, 1)] = {'kind': 'const',
+                                         'value': ('num', 0.19)}
+            sp.wbcells[(single, 1, 1)] = 0.19
+            k_use = (sheets[0], 11, 1)
+            a_use = ('bin', '*', ('ref', single, 1, 1, False, False),
+                     ('lit', 100, '100'))
+            sp.sb.put_formula(k_use[0], k_use[1], k_use[2],
+                              ref.render(a_use))
+            sp.expect[k_use] = {'kind': 'formula',
+                                'formula': ref.render(a_use), 'cached': None}
+            sp.wbcells[k_use] = ('f', a_use)
+            ctx.event('single_cell_sheets')
         with_names = rng.random() < 0.6
         if with_names:
             s0 = sheets[0]
